@@ -92,6 +92,17 @@ func (vc *VC) emitLemmaAxioms() {
 		if len(lm.Params) > 0 {
 			continue // parameterised lemmas are instantiated explicitly (uses clauses)
 		}
+		if vc.topC != nil && vc.topC.HasLemmaList {
+			listed := false
+			for _, n := range vc.topC.LemmaList {
+				if n == lm.Name {
+					listed = true
+				}
+			}
+			if !listed {
+				continue
+			}
+		}
 		need := map[string]bool{}
 		lemmaSpecs(vc.eng.cs, lm.Expr, need, map[string]bool{})
 		if len(need) == 0 {
